@@ -19,6 +19,7 @@ import (
 	"github.com/gokrazy/rsync/internal/rsyncopts"
 	"github.com/gokrazy/rsync/internal/rsyncos"
 	"github.com/gokrazy/rsync/internal/rsyncstats"
+	"github.com/gokrazy/rsync/internal/simhook"
 	"github.com/gokrazy/rsync/rsyncd"
 
 	// For profiling and debugging
@@ -262,6 +263,7 @@ func Main(ctx context.Context, osenv *rsyncos.Env, args []string, cfg *rsyncdcon
 	if err != nil {
 		return nil, err
 	}
+	listeners = simhook.Listeners(listeners)
 	if len(listeners) > 0 {
 		ln = listeners[0]
 	} else {
